@@ -1,5 +1,5 @@
 (* Model/Pickle.v — executable model of Lattice.__getstate__ / __setstate__ / __eq__ / __ne__
-   (koala/lattice.py:222-266, as the code is after fixes 8051f8a and 1d3446a).
+   (koala/lattice.py:222-269, as the code is after fixes 8051f8a, 1d3446a, 98a8b3d, d5da286).
    Definitions only.  Numbers: positions are exact rationals (every float64 is a dyadic
    rational), integer arrays carry a dtype tag and every cast goes through [wrap], so a
    narrowing that loses information is visible in the model.
@@ -140,8 +140,8 @@ Fixpoint first_fit (nv : Z) (ds : list idtype) : option idtype :=
   end.
 Definition select_index_dtype (nv : Z) : option idtype := first_fit nv index_dtype_candidates.
 
-(* lattice.py:250-254  check_fits(array, dtype):
-     assert iinfo(dtype).min <= np.min(array) and np.max(array) <= iinfo(dtype).max *)
+(* lattice.py:253-256  check_fits(array, dtype):
+     assert array.size == 0 or (iinfo(dtype).min <= np.min(array) and np.max(array) <= iinfo(dtype).max) *)
 Definition crossing_dtype : idtype := I8.
 Definition flat (l : list zpair) : list Z := flat_map (fun p => [fst p; snd p]) l.
 Definition list_min (x : Z) (l : list Z) : Z := fold_left Z.min l x.
@@ -157,7 +157,6 @@ Record tstate := mkT {
 Inductive gs_result :=
 | GSOk (s : tstate)
 | GSTooManyVertices        (* ValueError("A lattice with > 2**64 vertices ...") *)
-| GSEmptyCrossing          (* np.min of a zero-size array: ValueError (lattice without edges) *)
 | GSCrossingRange          (* AssertionError from check_fits *)
 | GSPosOverflow.           (* no exception in the code: a position became +-inf; outside Q *)
 
@@ -167,14 +166,15 @@ Definition getstate (L : lat) : gs_result :=
   | Some d =>
     let edges := map (wrap2 d) (l_idx L) in
     let vertices := map round32_2 (l_pos L) in
-    match flat (l_cross L) with
-    | [] => GSEmptyCrossing
-    | c0 :: cs =>
-      if check_fits_test (list_min c0 cs) (list_max c0 cs) crossing_dtype then
-        if existsb overflows2 (l_pos L) then GSPosOverflow
-        else GSOk (mkT vertices edges d (map (wrap2 crossing_dtype) (l_cross L)) crossing_dtype)
-      else GSCrossingRange
-    end
+    let fits_crossing :=
+      match flat (l_cross L) with
+      | [] => true                                           (* array.size == 0 *)
+      | c0 :: cs => check_fits_test (list_min c0 cs) (list_max c0 cs) crossing_dtype
+      end in
+    if fits_crossing then
+      if existsb overflows2 (l_pos L) then GSPosOverflow
+      else GSOk (mkT vertices edges d (map (wrap2 crossing_dtype) (l_cross L)) crossing_dtype)
+    else GSCrossingRange
   end.
 
 (* ------------------------------------------------------------------ __setstate__ *)
@@ -182,7 +182,7 @@ Inductive state :=
 | TupleState (t : tstate)      (* (vertices, edges, crossing) *)
 | DictState (d : lat).         (* legacy: the object's whole __dict__, caches included *)
 
-(* lattice.py:259-266: dict -> self.__dict__.update(state);
+(* lattice.py:262-269: dict -> self.__dict__.update(state);
    tuple -> self.__init__(vertices, edges.astype(int), crossing.astype(int)) *)
 Definition setstate (s : state) : lat :=
   match s with
@@ -214,17 +214,15 @@ Definition bcast_all {X} (f : X -> X -> bool) (A B : list X) : option bool :=
        | _, _ => None
        end.
 
-(* np.allclose default rtol (lattice.py passes only atol).  The float64 literal 1e-5 is
-   modelled by the rational 1/100000 (relative difference 8e-17). *)
-Definition rtol : Q := 1 # 100000.
-
-(* |a - b| <= atol + rtol * |b|  with atol = (1/sqrt nv)/100, decided exactly:
-   t = |a-b| - rtol |b|;  t <= 0  or  t^2 * 10000 * nv <= 1.   (nv = 0: atol = inf) *)
-Definition close1 (nv : Z) (a b : Q) : bool :=
-  let t := (Qabs (a - b) - rtol * Qabs b)%Q in
-  Qle_bool t 0 || Qle_bool (t * t * inject_Z (10000 * nv)) 1.
+(* lattice.py:229-234
+     average_separation = 1 / np.sqrt(self.n_vertices)
+     displacements = np.linalg.norm(self.positions - other.positions, axis=-1)
+     np.all(displacements <= average_separation / 100)
+   decided exactly:  |a-b|^2 * 10000 * nv <= 1     (nv = 0: the tolerance is inf) *)
 Definition close2 (nv : Z) (a b : qpair) : bool :=
-  close1 nv (fst a) (fst b) && close1 nv (snd a) (snd b).
+  let dx := (fst a - fst b)%Q in
+  let dy := (snd a - snd b)%Q in
+  Qle_bool ((dx * dx + dy * dy) * inject_Z (10000 * nv)) 1.
 
 Definition shapes_differ (A B : lat) : bool :=
   negb (length (l_pos A) =? length (l_pos B))%nat || negb (length (l_idx A) =? length (l_idx B))%nat.
@@ -239,11 +237,11 @@ Definition eq_core (A B : lat) : option bool :=
   | _, _, _ => None
   end.
 
-(* lattice.py:222-237.  None = the call raises *)
+(* lattice.py:222-239.  None = the call raises *)
 Definition lat_eq (A B : lat) : option bool :=
   if shapes_differ A B then Some false else eq_core A B.
 
-(* the code before fix 8051f8a (no shape test) — only used by the refutation theorem *)
+(* the same code without the shape test of fix 8051f8a — only used by a refutation theorem *)
 Definition lat_eq_noshape (A B : lat) : option bool := eq_core A B.
 
 Inductive pyobj := PyLattice (L : lat) | PyOther.   (* PyOther: None, int, str, tuple ... *)
